@@ -39,7 +39,7 @@ func (c04) Components() map[string]string {
 }
 func (c04) Budget(tier string) int {
 	if tier == "thorough" {
-		return 150000
+		return 60000
 	}
 	return 2000
 }
